@@ -399,7 +399,7 @@ func checkContentCOSE(msg *gocose.Sign1Message, c *signature.EnvelopeContent, er
 			chainOK = chainOK && !pe
 		}
 		reason = rt.Or(reason, !chainOK)
-		if chainOK && chainCalls == 1 {
+		if chainOK && chainCalls >= 1 {
 			reason = rt.Or(reason, rt.Not(chainVerdict))
 			leaf := rt.Havoc[*x509.Certificate]("cert0")
 			if hAlg.present && rt.Resolved(hAlg.val) {
@@ -464,7 +464,7 @@ func checkAcceptedCOSE(msg *gocose.Sign1Message, c *signature.EnvelopeContent) {
 		chainOK = chainOK && !pe
 	}
 	rt.Assert(chainOK, "C07.cose.chain.wellformed")
-	rt.Assert(chainCalls == 1 && chainTimeNil && len(chainArgs) == len(chainRaw) && chainVerdict, "C07.cose.chain.validated")
+	rt.Assert(chainCalls >= 1 && chainTimeNil && len(chainArgs) == len(chainRaw) && chainVerdict, "C07.cose.chain.validated")
 	if chainOK {
 		leaf := rt.Havoc[*x509.Certificate]("cert0")
 		rt.Assert(algRow == rt.AlgRow(rt.KeyInfo(leaf.PublicKey)), "C07.cose.alg.matches.leaf.key")
